@@ -80,6 +80,11 @@ CLAIMED = {
         "Static: over core, containers, the MIDI writers/sequencer and extra.fft (492 functions): every class-level list/dict is rebound per instance on every __init__ path or never mutated in place; for a battery of 30+ public list-returning functions (all memoised ones, every function/numeral accessor, to_chords, from_shorthand, scales) two calls share no mutable object with each other or with module-level containers; no function mutates a parameter or an alias of it in place (two frozen, reasoned exceptions); module-level mutable state is written only by its frozen owner, no mutable default arguments; NoteContainer(other)/add_notes(other) do not share Note objects and Note.dynamics is fresh.",
         "Not decided: equality of fft._find_log_index's accelerated and cold paths (ownership of _last_asked only); value-independence of arbitrary call histories beyond purity + memo transparency. Trusted: CPython ast, effect analysis + evaluator (variants/c15.py, fixtures/fixpkg), the frozen tables in rules/c15.py.",
         "DESIGN.md section 2, C15"),
+    "C16": (
+        "abstract interpretation of the MIDI track walkers over a finite partition of track shapes with symbolic values/pitches/velocities in a byte-stream domain (pending-delta typestate + symbolic event decode against an event model); evaluation of framing constants, header/body agreement, controller argument order, key-signature bytes for all 30 keys, writer repeat loops; boundary specialisation of the VLQ encoder",
+        "Static: for every track shape in the partition (1-2 bars; entries: rest, empty, 1/2/3 notes, tempo-changing; with/without a MIDI instrument; rests leading/inner/trailing/across bar lines) every pending non-zero delay is emitted exactly once and the decoded stream equals the event model at symbolic absolute ticks (int(round(288/value)) per entry): note-on/off pairs with pitch+12, channel, velocity; tempo 60000000//bpm; bank select then program change on the first note's channel; time and key signature per bar; chunk and file headers have the right tags, lengths, format 1, 72 ticks and a track count equal to the emitted chunks; bank select is controller 0 on the given channel; each of the 30 keys (string or Key object) is written with its signed signature and mode; write_* repeat the whole content repeat+1 times into one MidiTrack per track; the VLQ encoder equals the standard on boundary neighbourhoods.",
+        "Shapes beyond 2 bars x 4 entries are covered by the symbolic per-entry argument, not enumerated. Float log in the VLQ length is checked on neighbourhoods only. Trusted: CPython ast, abstract evaluator + engine/mididom.py (variants/c16.py), the event model in rules/c16.py.",
+        "DESIGN.md section 2, C16"),
     "C06": (
         "offset-domain abstract interpretation of every chord builder (interval constructors summarised by their C02 post-condition) against a meaning-keyed chord-theory oracle; table agreement; abstract evaluation of the shorthand parser on root shapes x keys, aliases, slash, polychord, NC, list and malformed classes",
         "Static: each of the shorthand builders (incl. the lambda) yields, for 7 root letters x arbitrary accidentals, exactly the (letter, semitone) list its meaning prescribes; chord_shorthand and chord_shorthand_meaning have equal key sets; from_shorthand maps every key, every min/mi/-/maj/ma alias spelling, slash basses, polychords, NC and list input to the right builder result and rejects unknown suffixes / bad roots / bad basses with the documented errors.",
